@@ -86,3 +86,18 @@ Theorem reset_is_new a bs c : source_resets_everything -> public_reset_clears_n 
 Proof.
   intros [H1 H2] H3. cbn [api_step fst]. unfold api_new, init_state, reset_state. rewrite H1, H2, H3. reflexivity.
 Qed.
+
+(* PeekFileId never leaves the decoder beyond the end of the sequence it peeks into: every message it decodes ends within the
+   declared data size, or the call fails (and the error sticks) -- so a Discard after it ends exactly at the sequence's end *)
+Lemma until_file_id_inside c : peekfileid_checks_overrun = true -> forall fuel s s',
+  until_file_id fuel c s = Ok s' -> s' = s \/ s_cur s' <= h_datasize (s_header s').
+Proof.
+  intros Hflag. induction fuel as [|f IH]; intros s s'; cbn [until_file_id].
+  - destruct (s_fileid s); [intros H; injection H as <-; left; reflexivity|].
+    destruct (peekfileid_bounded && _); discriminate.
+  - destruct (s_fileid s); [intros H; injection H as <-; left; reflexivity|].
+    destruct (peekfileid_bounded && _); [discriminate|].
+    unfold bind. destruct (decode_message c s) as [s1| | |]; try discriminate.
+    rewrite Hflag. cbn [andb]. destruct (N.ltb_spec (h_datasize (s_header s1)) (s_cur s1)) as [Hlt | Hge]; [discriminate|].
+    intros H. destruct (IH s1 s' H) as [-> | Hin]; right; [exact Hge|exact Hin].
+Qed.
